@@ -90,6 +90,14 @@ Definition WalkSeq (es : list entry) : Prop :=
   (forall e, In e es -> parent (e_path e) <> [] ->
      exists d, In d es /\ is_dir d = true /\ e_path d = parent (e_path e)).
 
+(* Hard-link entries: the target of every link entry is the path of an earlier
+   non-directory entry with the same owner (tarfs: a recorded hard link shares
+   its target's node, hence memFileInfo.Package(); and C06 shows a link listed
+   before its target cannot be extracted at all). *)
+Definition LinksWithTarget (own : path -> option string) (es : list entry) : Prop :=
+  forall pre x post, es = pre ++ x :: post -> e_kind x = KLink ->
+    exists t, In t pre /\ e_path t = split_slash (e_link x) /\ is_dir t = false /\ own (e_path t) = own (e_path x).
+
 (* [single]: the entries of the single-layer build of the same filesystem.
    Applying the layers in order gives the same filesystem; every non-directory
    entry is in exactly the layer of its owner (or the top layer), once, unchanged;
